@@ -870,8 +870,33 @@ func vfC01ColdStart(env *vfEnv) error {
 	return l.Start(env.Ctx, dbc.Bucket, dbc.DbStats.Database().CacheFeedMapStats.Map, dbc.Scopes, dbc.MetadataStore)
 }
 
+// vfC01WaitCompactionIdle: changeCache.Clear re-initialises the collection of channel caches, which
+// only the repository's test helpers ever do. A channel-cache compaction pass (started when a tiny
+// MaxNumChannels is exceeded) that collected its eviction candidates before the Clear and removes
+// them after it corrupts the re-initialised list (observed: nil element in the next compaction
+// pass). That interleaving cannot happen in the product, so the harness lets a running pass
+// finish first. No new pass can start meanwhile: passes are started only from inside a changes
+// request, and none is running here.
+func vfC01WaitCompactionIdle(env *vfEnv) error {
+	cc, ok := env.DBC.channelCache.(*channelCacheImpl)
+	if !ok {
+		return nil
+	}
+	deadline := time.Now().Add(vfWaitBound)
+	for cc.isCompactActive() {
+		if time.Now().After(deadline) {
+			return kit.InconclusiveErr{Msg: "channel cache compaction still running after " + vfWaitBound.String()}
+		}
+		time.Sleep(time.Millisecond)
+	}
+	return nil
+}
+
 func (w *vfC01World) cold() {
 	if err := w.env.WaitCache(); err != nil {
+		w.inconclusive("%v", err)
+	}
+	if err := vfC01WaitCompactionIdle(w.env); err != nil {
 		w.inconclusive("%v", err)
 	}
 	if err := vfC01ColdStart(w.env); err != nil {
